@@ -1,4 +1,5 @@
 import DirectVerif.Lemmas.C11Split
+import DirectVerif.Lemmas.C11Float
 /-!
 # C11 — self-supervised mask splitting is a partition that honours ratio and ACS
 
@@ -505,6 +506,53 @@ theorem seed_of_concat (f₁ s₁ f₂ s₂ : List Nat) (h : f₁ ++ s₁ = f₂
     gaussianSeed (seedTuple f₁ s₁) = gaussianSeed (seedTuple f₂ s₂) := by
   simp only [seedTuple, h]
 
+/-- **Batch collation.**  A split mask has the shape of the per-sample sampling mask, so whenever that mask
+broadcasts against the per-sample k-space of the same rank, the collated masks `(B, …)` broadcast against the
+collated k-space `(B, C, …)` with the batch axes meeting — for every batch size, 2-D and 3-D alike. -/
+theorem split_mask_collates (B : Nat) (ms ks : List Nat) (hl : ms.length = ks.length) (hb : broadcastsTo ms ks = true) :
+    broadcastsTo (B :: splitMaskShape ms) (B :: ks) = true ∧ batchAligned (B :: splitMaskShape ms) (B :: ks) = true := by
+  have hz : ((ms.reverse ++ [B]).zip (ks.reverse ++ [B])).all (fun ab => ab.1 == 1 || ab.1 == ab.2) = true := by
+    simp only [broadcastsTo, Bool.and_eq_true] at hb
+    rw [List.zip_append (by simp [hl]), List.all_append, hb.2]
+    simp
+  simp only [broadcastsTo, splitMaskShape, batchAligned, List.length_cons, hl, List.reverse_cons, hz, Bool.and_eq_true,
+    decide_eq_true_eq, beq_iff_eq, and_true]
+  exact Nat.le_refl _
+
+/-- before the repair the split masks of 3-D data had rank 4: collated `(2, 1, H, W, 1)` does not broadcast against
+`(2, 3, S, H, W, 2)` (RuntimeError), and for batch = coils it broadcasts with the batch axis on the coil axis -/
+theorem split_mask_rank_pinned_violates :
+    broadcastsTo (2 :: splitMaskShapePinned [1, 1, 6, 8, 1]) [2, 3, 2, 6, 8, 2] = false ∧
+    (broadcastsTo (3 :: splitMaskShapePinned [1, 1, 6, 8, 1]) [3, 3, 2, 6, 8, 2] = true ∧
+     batchAligned (3 :: splitMaskShapePinned [1, 1, 6, 8, 1]) [3, 3, 2, 6, 8, 2] = false) := by decide
+
+/-! ## the float32 product behind the requested count -/
+
+/-- **`int(ceil(float32(S)·float32(ρ)))` versus `⌈S·p/q⌉`** (and the same for the floor), for `S · p < 2^22`:
+equal unless `S·p/q` is an integer `k`; then the float32 product may land just off `k` and the ceiling is `k`
+or `k + 1`, the floor `k` or `k - 1`.  `countCeilF32` / `countFloorF32` are the executable binary32 model the
+driver runs (compared with torch on every run). -/
+theorem requested_count_f32 (S p q : Nat) (hq : 0 < q) (hsp : S * p < 2 ^ 22) :
+    (¬ (q : Int) ∣ (S : Int) * p → countCeilF32 S p q = ratioCeil S p q ∧ countFloorF32 S p q = ratioFloor S p q) ∧
+    ((q : Int) ∣ (S : Int) * p →
+      (countCeilF32 S p q = ratioCeil S p q ∨ countCeilF32 S p q = ratioCeil S p q + 1) ∧
+      (countFloorF32 S p q = ratioFloor S p q ∨ countFloorF32 S p q = ratioFloor S p q - 1)) :=
+  count_f32_spec S p q hq hsp
+
+/-- within one sample of the exact-rational count, always (same range) -/
+theorem requested_count_f32_within_one (S p q : Nat) (hq : 0 < q) (hsp : S * p < 2 ^ 22) :
+    ratioCeil S p q ≤ countCeilF32 S p q ∧ countCeilF32 S p q ≤ ratioCeil S p q + 1 ∧
+    ratioFloor S p q - 1 ≤ countFloorF32 S p q ∧ countFloorF32 S p q ≤ ratioFloor S p q := by
+  have h := count_f32_spec S p q hq hsp
+  by_cases hd : (q : Int) ∣ (S : Int) * p
+  · have := h.2 hd; omega
+  · have := h.1 hd; omega
+
+/-- binary32 rounding as executed has relative error at most 2^-24 -/
+theorem round_f32_error (num den : Nat) (hd : 0 < den) :
+    |qval (roundF32 num den) - (num : ℚ) / den| * 2 ^ 24 ≤ (num : ℚ) / den :=
+  (roundF32_spec num den hd).2
+
 /-! ## the SSL branch around the splitter -/
 
 /-- **Key plumbing.**  For every transform tail and engine key table that pass the decidable check `plumbingOk`
@@ -593,6 +641,9 @@ example : plumbingOk
       project := "target_sampling_mask", lossK := "kspace", lossImage := "target" } = false := by decide
 example : regionIdx 10 14 = [8, 9] := by decide
 example : regionIdx 10 4 = [3, 4, 5, 6] := by decide
+example : broadcastsTo [1, 1, 6, 8, 1] [3, 2, 6, 8, 2] = true ∧ broadcastsTo [1, 6, 8, 1] [3, 6, 8, 2] = true := by decide
+/-- the float32 product lifts 50 · 0.3 just above 15 -/
+example : countCeilF32 50 3 10 = 16 ∧ ratioCeil 50 3 10 = 15 ∧ countFloorF32 50 3 10 = 15 := by decide
 example : dedup [(0, 0), (5, 5), (0, 0), (1, 2), (5, 5)] = [(0, 0), (5, 5), (1, 2)] := by decide
 example : regionIdx 7 7 = [0, 1, 2, 3, 4, 5] := by decide
 
